@@ -305,6 +305,10 @@ func c15d(c *Ctx) {
 				c.Check(got == "false" || got == "zero", "tryParseLabelStatement/plain-label", c.W.Pos(a.Pos()), "'name:' is local", "'name:' label has IsGlobal = "+got)
 				seen["plain"] = true
 			case strings.Contains(cond, `+($0.peekToken.Type == "(")`):
+				must := c.mustLits(fn, a.Block())
+				shape := hasLit(must, `+($0.peekToken.Type == "(")`) && hasLit(must, `+($0.peek3Token.Type == ")")`) && hasLit(must, `+($0.peek4Token.Type == ":")`) &&
+					c.everyConjHasOneOf(fn, a.Block(), `+($0.peek2Token.Type == "GLOBAL")`, `+($0.peek2Token.Type == "LOCAL")`)
+				c.Check(shape, "tryParseLabelStatement/scoped-label-shape", c.W.Pos(a.Pos()), "a scoped label is exactly  name ( global|local ) :", "a scoped label is recognised without all of '(' , global|local , ')' and ':' being tested: a command such as name(local) could be taken for a label")
 				c.Check(got == `($0.peek2Token.Type == "GLOBAL")`, "tryParseLabelStatement/scoped-label", c.W.Pos(a.Pos()), "'name(scope):' is global iff the written modifier is GLOBAL", "'name(scope):' label has IsGlobal = "+got+", expected ($0.peek2Token.Type == \"GLOBAL\") evaluated at the label name")
 				seen["scoped"] = true
 			default:
